@@ -28,11 +28,15 @@ tvars == <<tid, l, verdict, info, first, worlds>>
 
 Ev == Traces[tid].events
 
+\* Property level: the decoded selector and its classification are recomputed here from the case.
+\* Design level: the predictions of Handlers!Serve for this case are those TLC computed in the
+\* MC_C01 run that produced the case (init.pred, relayed verbatim by the harness); recomputing
+\* them per trace made validation three times slower.
 Info(t) ==
     LET i == Traces[t].init
         d == H!DecodeSelector(i.frame, i.raw)
-        o == H!Serve(d, i.hl)
-    IN [d |-> d, url |-> H!UrlShaped(d), hostile |-> H!Hostile(d), ph |-> o.h, presp |-> o.resp, plsel |-> o.lsel]
+    IN [d |-> d, url |-> H!UrlShaped(d), hostile |-> H!Hostile(d),
+        ph |-> i.pred.h, presp |-> i.pred.resp, plsel |-> i.pred.lsel]
 
 TInit == /\ tid \in 1..NTraces /\ l = 1 /\ verdict = "ok"
          /\ info = Info(tid) /\ first = "" /\ worlds = {}
@@ -45,6 +49,8 @@ Clause(i, e, f) ==
     ELSE "ok"
 
 RespMatches(p, r) == p = "any" \/ p = r \/ (p = "ioerror" /\ r \in {"notfound", "error"})
+\* the model's "some other byte" matches any one character of the logged selector
+SelMatches(p, s) == Len(p) = Len(s) /\ \A j \in 1..Len(p) : p[j] = s[j] \/ p[j] = H!Oth
 
 Run ==
     /\ l <= Len(Ev) /\ verdict = "ok" /\ Ev[l].ev = "run"
@@ -52,7 +58,7 @@ Run ==
     /\ verdict' = Clause(info, Ev[l], first)
     /\ first' = (IF first = "" THEN Ev[l].digest ELSE first)
     /\ worlds' = worlds \cup {Ev[l].world}
-    /\ (IF ~Ev[l].lselknown \/ Ev[l].lsel = info.plsel THEN TRUE ELSE RecordDrift(tid, l, "decoded selector"))
+    /\ (IF ~Ev[l].lselknown \/ SelMatches(info.plsel, Ev[l].lsel) THEN TRUE ELSE RecordDrift(tid, l, "decoded selector"))
     /\ (IF Ev[l].h = info.ph THEN TRUE ELSE RecordDrift(tid, l, "handler class"))
     /\ (IF RespMatches(info.presp, Ev[l].resp) THEN TRUE ELSE RecordDrift(tid, l, "response class"))
 
